@@ -232,6 +232,47 @@ pub fn run_height_case(c: HCase, trace: &mut Vec<String>) -> (Vec<Failure>, bool
     }
     // ---- an admissible reconfiguration at the end (only when nothing went wrong)
     let poisoned = stages.iter().any(|(sh, _)| (*sh as i32 + off) > n as i32);
+    if !poisoned && fails.is_empty() && crate::choice::dv() >= 4 {
+        // decoder 4: shrinking. The greatest height in use is that of the last stage, whichever way
+        // the nodes got there (directly, or lifted by the height adjustment after a bind switched).
+        let e = stages.last().unwrap().0.max(small.as_ref().map_or(0, |s| s.2));
+        let e = (e as i32 + off) as usize;
+        if e >= 2 {
+            // a limit below the height in use is not allowed: refused with a diagnostic; if it is
+            // taken, the state must at least not go on computing the taller graph
+            match guarded(|| st.set_max_height_allowed(e - 1)) {
+                Err(m) => {
+                    trace.push(format!("set_max_height_allowed({}) with height {e} in use: refused ({m})", e - 1));
+                    if !m.to_lowercase().contains("height") {
+                        fails.push(fail("diagnostic", format!("limit below the height in use refused, but the panic does not name the height: {m}")));
+                    }
+                }
+                Ok(()) => {
+                    trace.push(format!("set_max_height_allowed({}) with height {e} in use: taken", e - 1));
+                    built._keep[0].set(7);
+                    match guarded(|| st.stabilise()) {
+                        Ok(()) => fails.push(fail("accepted-too-tall", format!("set_max_height_allowed({}) was accepted although a graph of height {e} is in use, and that graph is still computed", e - 1))),
+                        Err(m) if !m.to_lowercase().contains("height") => fails.push(fail("diagnostic", format!("graph taller than the reconfigured limit rejected, but the panic does not name the height limit: {m}"))),
+                        Err(_) => {}
+                    }
+                    let r = guarded(move || {
+                        drop(obs);
+                        drop(small);
+                        drop(built);
+                        drop(st);
+                    });
+                    if let Err(m) = r {
+                        fails.push(fail("drop-after", format!("dropping the handles afterwards panicked: {m}")));
+                    }
+                    return (fails, reconfigured);
+                }
+            }
+        }
+        // exactly the height in use is allowed
+        if let Err(m) = guarded(|| st.set_max_height_allowed(e)) {
+            fails.push(fail("admissible-reconfiguration-panicked", format!("lowering the limit from {n} to the height in use ({e}) panicked: {m}")));
+        }
+    }
     if !poisoned && fails.is_empty() {
         let v2 = crate::choice::dv() >= 2;
         if v2 {
